@@ -3521,7 +3521,11 @@ class SFTPClientFile:
             offset = 0
             size = 0
 
-        return _SFTPFileReader(self.read_len, self._max_requests,
+        # A file opened with block_size=None has no read length of its
+        # own, so fall back on the maximum read size the server allows
+        read_len = self.read_len or self._handler.limits.max_read_len
+
+        return _SFTPFileReader(read_len, self._max_requests,
                                self._handler, self._handle, offset,
                                size).iter()
 
